@@ -35,6 +35,7 @@ type SchedSpec struct {
 	MaxSteps int      `json:"max_steps,omitempty"`
 	Replay   []int    `json:"replay,omitempty"` // literal schedule; nil = draw from the run's PRNG
 	Literal  bool     `json:"literal,omitempty"`
+	PostLoad bool     `json:"post_load,omitempty"` // scheduling point after every atomic load too
 }
 
 type PoolSpec struct {
